@@ -5,19 +5,13 @@ package c16
 
 import (
 	"fmt"
-	"math/big"
-	"math/rand"
 	"testing"
 
 	"verifharness/kit"
 	"verifharness/kit/detmon"
-	"verifharness/kit/pk"
-	"verifharness/synth/ccmsynth"
-	es "verifharness/synth/ethsynth"
+	"verifharness/workloads"
 
-	"github.com/polynetwork/poly/common"
 	polyeth "github.com/polynetwork/poly/native/service/header_sync/eth"
-	"github.com/polynetwork/poly/native/service/utils"
 )
 
 const day = int64(86400) * 1e9
@@ -43,11 +37,11 @@ func TestC16(t *testing.T) {
 
 	rounds := r.N(1, 6)
 	for round := 0; round < rounds; round++ {
-		govWorkload(t, r, r.Rand(fmt.Sprintf("gov/%d", round)))
+		workloads.Gov(r, r.Rand(fmt.Sprintf("gov/%d", round)), nil)
 		for _, name := range []string{"eth", "bsc", "heco", "hsc", "pixie", "bytom", "msc"} {
-			evmWorkload(t, r, r.Rand(fmt.Sprintf("evm/%s/%d", name, round)), name, uint64(2000+round))
+			workloads.EVM(r, r.Rand(fmt.Sprintf("evm/%s/%d", name, round)), nil, name, uint64(2000+round))
 		}
-		extraWorkloads(t, r, round)
+		workloads.Extra(r, r.Rand(fmt.Sprintf("extra/%d", round)), nil)
 	}
 	m.Report()
 	r.Eval(int(r.Get("executions_compared")))
@@ -61,197 +55,3 @@ func TestC16(t *testing.T) {
 	r.Sample(map[string]interface{}{"skews_ns": skews(r), "entry_points": m.Entry})
 }
 
-func note(r *kit.Run, rec interface {
-}) {
-}
-
-// track classifies a call for the evidence.
-func track(r *kit.Run, ok bool, method string, nw, nn int) {
-	if ok {
-		r.Count("successful_calls", 1)
-	} else {
-		r.Count("failed_calls", 1)
-	}
-	r.Distinct(method, ok, nw, nn)
-}
-
-func govWorkload(t *testing.T, r *kit.Run, rng *rand.Rand) {
-	vals := pk.NewKeys(rng, 4+rng.Intn(4))
-	owner := pk.NewKey(rng)
-	w, err := ccmsynth.NewWorld(3, vals, owner)
-	if err != nil {
-		r.Inconclusive("gov world: " + err.Error())
-		return
-	}
-	w.E.Record = true
-	w.E.Height = 50
-	// side chains of several routers (vote router needs no foreign data)
-	for i, router := range []uint64{utils.VOTE_ROUTER, utils.VOTE_ROUTER, utils.ETH_ROUTER, utils.BSC_ROUTER, utils.COSMOS_ROUTER, utils.ONT_ROUTER} {
-		spec := ccmsynth.ChainSpec{ID: uint64(10 + i), Router: router, Name: fmt.Sprintf("c%d", i), BlocksToWait: 1, CCMC: make([]byte, 20)}
-		if err := w.RegisterAndApprove(spec); err != nil {
-			r.Inconclusive("register: " + err.Error())
-			return
-		}
-	}
-	// relayers
-	rel := pk.NewKeys(rng, 3)
-	var addrs []common.Address
-	for _, k := range rel {
-		addrs = append(addrs, k.Addr)
-	}
-	if err := w.RegisterRelayers(owner, addrs, 0); err != nil {
-		r.Count("gov_relayer_registration_failed", 1)
-	}
-	// vote-router imports: votes from validators and outsiders, repeats
-	for i := 0; i < 6; i++ {
-		cross := make([]byte, 8)
-		rng.Read(cross)
-		im := ccmsynth.Import{Source: 10, Height: uint32(100 + i), Param: ccmsynth.RandParam(rng, 11, cross)}
-		for _, v := range w.Vals {
-			w.Vote(im, v)
-		}
-		w.Vote(im, owner)     // outsider
-		w.Vote(im, w.Vals[0]) // replay after release
-	}
-	// black / white
-	w.Black(11)
-	im := ccmsynth.Import{Source: 10, Height: 300, Param: ccmsynth.RandParam(rng, 11, []byte("blk"))}
-	for _, v := range w.Vals {
-		w.Vote(im, v)
-	}
-	w.White(11)
-	for _, v := range w.Vals {
-		w.Vote(im, v)
-	}
-	// validator set changes and epoch change
-	nk := pk.NewKey(rng)
-	if err := w.AddValidator(nk); err != nil {
-		r.Count("gov_add_validator_failed", 1)
-	}
-	w.E.Height += 10
-	if err := w.CommitDpos(); err != nil {
-		r.Count("gov_commit_dpos_failed", 1)
-	}
-	if len(w.Vals) > 5 {
-		w.RemoveValidator(w.Vals[len(w.Vals)-1])
-		w.E.Height += 10
-		w.CommitDpos()
-	}
-	// fee votes
-	for _, v := range w.Vals {
-		w.UpdateFee(v, 12, 0, big.NewInt(int64(1000+rng.Intn(5))))
-	}
-	// signatures collected by the signature manager
-	subject := make([]byte, 40)
-	rng.Read(subject)
-	for _, v := range w.Vals {
-		w.AddSignature(v, 12, subject, v.Sign(subject))
-	}
-	for _, rec := range w.E.Log {
-		track(r, rec.Ok, rec.Method, len(rec.WriteSet), len(rec.Notify))
-	}
-}
-
-func flavorOf(name string) *es.Flavor {
-	for _, f := range append(append([]*es.Flavor{}, es.PoSAFlavors...), es.PoSAFlavorsB...) {
-		if f.Name == name {
-			return f
-		}
-	}
-	return nil
-}
-
-const sealChainID = 56
-
-// evmWorkload: register, trust root, a short chain with a fork, valid and invalid deposit imports.
-func evmWorkload(t *testing.T, r *kit.Run, rng *rand.Rand, name string, chainID uint64) {
-	e := es.NewEnv(rng, 3)
-	e.Record = true
-	const target = 900
-	if err := e.RegisterSideChain(target, utils.ETH_ROUTER, "target", 1, make([]byte, 20), nil); err != nil {
-		r.Inconclusive("register target: " + err.Error())
-		return
-	}
-	var ccmc es.Addr
-	rng.Read(ccmc[:])
-	st := es.NewState(rng, ccmc, 5)
-	p := es.RandTxParam(rng, target)
-	slot := es.RandHash(rng)
-	st.Commit(ccmc, slot, p.Serialize())
-	root := st.Root()
-	var heights []uint64
-	if name == "eth" {
-		if err := e.RegisterSideChain(chainID, utils.ETH_ROUTER, name, 1, ccmc[:], nil); err != nil {
-			r.Inconclusive("register: " + err.Error())
-			return
-		}
-		forks := es.ForksFor(e.NetID)
-		g := es.NewRoot(rng, forks, 12000000, big.NewInt(1500000000000), 12000000)
-		e.SyncGenesis(chainID, g.JSON())
-		e.SyncGenesis(chainID, g.JSON()) // second installation attempt
-		parent := g
-		var second *es.Hdr
-		for i := 0; i < 6; i++ {
-			h := es.Child(rng, forks, parent, es.ChildOpt{Root: &root, Dt: uint64(10 + rng.Intn(5))})
-			e.SyncHeaders(chainID, h.JSON())
-			if i == 1 {
-				second = parent
-			}
-			parent = h
-			heights = append(heights, h.Number)
-		}
-		// a fork sibling and a header violating a rule
-		if second != nil {
-			f := es.Child(rng, forks, second, es.ChildOpt{Root: &root, Dt: 30})
-			e.SyncHeaders(chainID, f.JSON())
-		}
-		bad := es.Child(rng, forks, parent, es.ChildOpt{Root: &root, Dt: 12})
-		bad.Difficulty = new(big.Int).Add(bad.Difficulty, big.NewInt(1))
-		e.SyncHeaders(chainID, bad.JSON())
-	} else {
-		f := flavorOf(name)
-		if f == nil {
-			r.Count("router_flavor_missing:"+name, 1)
-			return
-		}
-		v := 1 + rng.Intn(4)
-		c, gen := es.NewPoSAChain(rng, f, sealChainID, 1+rng.Intn(v), v, v, 6000000)
-		if err := e.RegisterSideChain(chainID, f.Router, name, 1, ccmc[:], f.ExtraInfoJSONEpoch(sealChainID, c.Epoch)); err != nil {
-			r.Inconclusive("register: " + err.Error())
-			return
-		}
-		e.SyncGenesis(chainID, gen)
-		e.SyncGenesis(chainID, gen)
-		parent := c.M.Root
-		for i := 0; i < 6; i++ {
-			h := c.Next(rng, parent, es.HonestOpt{Root: &root})
-			if h == nil {
-				break
-			}
-			rec := e.SyncHeaders(chainID, h.JSON())
-			if !rec.Ok {
-				break
-			}
-			parent = c.M.Add(parent, h)
-			heights = append(heights, h.Number)
-		}
-		// a header with a corrupted seal
-		if h := c.Next(rng, parent, es.HonestOpt{Root: &root}); h != nil {
-			h.Extra[len(h.Extra)-3] ^= 0x55
-			e.SyncHeaders(chainID, h.JSON())
-		}
-	}
-	if len(heights) >= 2 {
-		pr := st.Prove(ccmc, slot)
-		e.Import(chainID, uint32(heights[0]), pr.JSON(), p.Serialize())   // valid
-		e.Import(chainID, uint32(heights[0]), pr.JSON(), p.Serialize())   // replay
-		e.Import(chainID, uint32(heights[0])-50, pr.JSON(), p.Serialize()) // below the trust root
-		bp := pr.Clone()
-		q := es.RandTxParam(rng, target)
-		e.Import(chainID, uint32(heights[1]), bp.JSON(), q.Serialize()) // message not committed
-	}
-	for _, rec := range e.Log {
-		track(r, rec.Ok, name+":"+rec.Method, len(rec.WriteSet), len(rec.Notify))
-	}
-	r.Count("router_workload:"+name, 1)
-}
